@@ -363,9 +363,9 @@ Theorem mark_changed_stamp c sd clock i s s' : bump_ok c -> mark_changed c sd cl
   exists e', nth_error (ents s') i = Some e' /\ ch sd e' = Some (last s').
 Proof.
   intros Hb. unfold mark_changed. destruct (nth_error (ents s) i) as [e|] eqn:En; [|discriminate].
-  destruct (set_changed sd (Some clock) (with_nt sd (Some clock) e)) as [e1| |] eqn:E1; simpl; try discriminate.
+  destruct (set_changed sd (Some clock) (with_nt sd (Some clock) e)) as [e1|] eqn:E1; simpl; try discriminate.
   destruct (Qle_bool clock (last s)) eqn:Ec.
-  - destruct (set_changed sd (Some (fadd c (last s) (c_eps c))) e1) as [e2| |] eqn:E2; simpl; try discriminate.
+  - destruct (set_changed sd (Some (fadd c (last s) (c_eps c))) e1) as [e2|] eqn:E2; simpl; try discriminate.
     intros H. inversion H; subst; clear H. simpl.
     apply qleb_true in Ec. pose proof (Hb (last s)) as Hlt. unfold fadd.
     split; [exact Hlt|]. split; [lra|].
@@ -424,7 +424,7 @@ Lemma steps_last c ops s s' : bump_ok c -> steps c ops s = Ok s' -> last s <= la
 Proof.
   intros Hb. revert s. induction ops as [|o r IH]; simpl; intros s H.
   - inversion H. lra.
-  - destruct (step c o s) as [[s1 p]| |] eqn:E; simpl in H; try discriminate.
+  - destruct (step c o s) as [[s1 p]|] eqn:E; simpl in H; try discriminate.
     apply step_last in E; [|exact Hb]. apply IH in H. simpl in H. lra.
 Qed.
 
@@ -517,8 +517,8 @@ Proof.
     - rewrite (T s Tr). destruct (Hh s Tr) as [_ Hq]. apply truthy_pos. specialize (Hpp s). lra.
     - rewrite (Fs s Tr). exact Tr. }
   exists (with_pri (pri e + 1) e2). split.
-  { destruct (shift c SL e) as [e1| |]; simpl in B |- *; try discriminate.
-    destruct (shift c SR e1) as [e2'| |]; simpl in B |- *; try discriminate.
+  { destruct (shift c SL e) as [e1|]; simpl in B |- *; try discriminate.
+    destruct (shift c SR e1) as [e2'|]; simpl in B |- *; try discriminate.
     inversion B; subst. reflexivity. }
   split; [simpl; lra|].
   split.
@@ -596,13 +596,13 @@ Qed.
 
 Theorem change_spec c now age order s i : change c now age order s = Ok (Some i) ->
   exists e, nth_error (ents s) i = Some e /\ inset e = true /\ In i order /\
-    pick_sorted (earlier_than c now age) (tagged order s) = Some (i, e) /\
+    pick_sorted (threshold c now age (last s)) (tagged order s) = Some (i, e) /\
     (forall j e', nth_error (ents s) j = Some e' -> inset e' = true -> In (j, e') (tagged order s)).
 Proof.
   unfold change. destruct (order_ok order s) eqn:Ok1; [|discriminate].
   unfold order_ok in Ok1. apply andb_true_iff in Ok1 as [Ok1 Ok3]. apply andb_true_iff in Ok1 as [_ Ok2].
   rewrite forallb_forall in Ok2, Ok3.
-  destruct (pick_sorted (earlier_than c now age) (tagged order s)) as [[i' e]|] eqn:P; simpl; [|discriminate].
+  destruct (pick_sorted (threshold c now age (last s)) (tagged order s)) as [[i' e]|] eqn:P; simpl; [|discriminate].
   intros H. inversion H; subst i'. clear H.
   pose proof (picked_is_eligible _ _ _ P) as [Hin _].
   unfold tagged in Hin. apply in_map_iff in Hin as [j [Ej Hj]]. inversion Ej; subst j.
@@ -621,9 +621,9 @@ Qed.
 (* the pick of change() is a member, eligible, and minimal among ALL eligible members *)
 Theorem change_min c now age order s i : change c now age order s = Ok (Some i) ->
   exists e, nth_error (ents s) i = Some e /\ inset e = true /\
-    eligible (earlier_than c now age) e = true /\
+    eligible (threshold c now age (last s)) e = true /\
     forall j e', nth_error (ents s) j = Some e' -> inset e' = true ->
-      eligible (earlier_than c now age) e' = true -> key_le e e'.
+      eligible (threshold c now age (last s)) e' = true -> key_le e e'.
 Proof.
   intros H. destruct (change_spec _ _ _ _ _ _ H) as [e [En [Hi [_ [P Hall]]]]].
   exists e. split; [exact En|]. split; [exact Hi|].
@@ -633,11 +633,11 @@ Qed.
 
 Theorem change_none c now age order s : change c now age order s = Ok None ->
   forall j e', nth_error (ents s) j = Some e' -> inset e' = true ->
-    eligible (earlier_than c now age) e' = false.
+    eligible (threshold c now age (last s)) e' = false.
 Proof.
   unfold change. destruct (order_ok order s) eqn:Ok1; [|discriminate].
   unfold order_ok in Ok1. apply andb_true_iff in Ok1 as [_ Ok3]. rewrite forallb_forall in Ok3.
-  destruct (pick_sorted (earlier_than c now age) (tagged order s)) as [[i' e]|] eqn:P; simpl; [discriminate|].
+  destruct (pick_sorted (threshold c now age (last s)) (tagged order s)) as [[i' e]|] eqn:P; simpl; [discriminate|].
   intros _ j e' En' Hi'.
   assert (Hm : member s j = true) by (unfold member; rewrite En'; exact Hi').
   assert (Hlt : (j < length (ents s))%nat) by (apply nth_error_Some; congruence).
@@ -702,8 +702,8 @@ Proof.
   intros Hc H Hok. unfold set_priority in H.
   destruct (Qeq_bool (pri e) v); [inversion H; subst; exact Hok|].
   destruct (qltb (pri e) v && qltb 0 v).
-  - destruct (shift c SL e) as [e1| |] eqn:S1; simpl in H; try discriminate.
-    destruct (shift c SR e1) as [e2| |] eqn:S2; simpl in H; try discriminate.
+  - destruct (shift c SL e) as [e1|] eqn:S1; simpl in H; try discriminate.
+    destruct (shift c SR e1) as [e2|] eqn:S2; simpl in H; try discriminate.
     inversion H; subst. apply with_pri_ok.
     eapply shift_keeps; [exact Hc|exact S2|]. eapply shift_keeps; [exact Hc|exact S1|exact Hok].
   - inversion H; subst. apply with_pri_ok. exact Hok.
@@ -746,21 +746,21 @@ Lemma on_ent_keeps i f s s' : (forall e e', f e = Ok e' -> ent_ok e -> ent_ok e'
   on_ent i f s = Ok s' -> all_ok s -> all_ok s'.
 Proof.
   intros Hf. unfold on_ent, all_ok. destruct (nth_error (ents s) i) as [e|] eqn:En; [|discriminate].
-  destruct (f e) as [e'| |] eqn:Fe; simpl; try discriminate. intros H Hok. inversion H; subst. simpl.
+  destruct (f e) as [e'|] eqn:Fe; simpl; try discriminate. intros H Hok. inversion H; subst. simpl.
   apply upd_forall; [exact Hok|]. eapply Hf; [exact Fe|]. eapply nth_error_forall; eassumption.
 Qed.
 
 Lemma mark_changed_keeps c sd clock i s s' : cfg_ok c -> mark_changed c sd clock i s = Ok s' -> all_ok s -> all_ok s'.
 Proof.
   intros Hc. unfold mark_changed, all_ok. destruct (nth_error (ents s) i) as [e|] eqn:En; [|discriminate].
-  destruct (set_changed sd (Some clock) (with_nt sd (Some clock) e)) as [e1| |] eqn:E1; simpl; try discriminate.
+  destruct (set_changed sd (Some clock) (with_nt sd (Some clock) e)) as [e1|] eqn:E1; simpl; try discriminate.
   intros H Hok. pose proof (nth_error_forall _ _ _ _ Hok En) as He.
   assert (H1 : ent_ok e1).
   { apply (set_changed_keeps _ _ _ _ E1).
     - apply with_nt_other. apply ent_ok_sides. exact He.
     - intros _ t Ht. rewrite with_nt_same in Ht. inversion Ht; subst. simpl. lra. }
   destruct (Qle_bool clock (last s)) eqn:Ec.
-  - destruct (set_changed sd (Some (fadd c (last s) (c_eps c))) e1) as [e2| |] eqn:E2; simpl in H; try discriminate.
+  - destruct (set_changed sd (Some (fadd c (last s) (c_eps c))) e1) as [e2|] eqn:E2; simpl in H; try discriminate.
     inversion H; subst. simpl. apply upd_forall; [exact Hok|].
     apply (set_changed_keeps _ _ _ _ E2); [apply ent_ok_sides; exact H1|].
     intros _ t Ht. apply set_changed_ok in E1 as [_ [_ [_ [Hnt _]]]]. rewrite Hnt, with_nt_same in Ht.
@@ -774,8 +774,8 @@ Proof.
   - inversion H. constructor.
   - inversion Hok as [|? ? He Hr]; subst.
     destruct (if inset e && qltb 0 (pri e) && match rel with x :: _ => x | [] => false end then set_priority c 0 e else Ok e)
-      as [e'| |] eqn:E1; simpl in H; try discriminate.
-    destruct (reset_related c (tl rel) r) as [r'| |] eqn:E2; simpl in H; try discriminate.
+      as [e'|] eqn:E1; simpl in H; try discriminate.
+    destruct (reset_related c (tl rel) r) as [r'|] eqn:E2; simpl in H; try discriminate.
     inversion H; subst. constructor.
     + destruct (inset e && qltb 0 (pri e) && match rel with x :: _ => x | [] => false end).
       * eapply set_priority_keeps; eassumption.
@@ -786,13 +786,13 @@ Qed.
 Lemma finished_keeps c sd rel i s s' : cfg_ok c -> finished c sd rel i s = Ok s' -> all_ok s -> all_ok s'.
 Proof.
   intros Hc. unfold finished, all_ok. destruct (nth_error (ents s) i) as [e|] eqn:En; [|discriminate].
-  destruct (set_changed sd (Some 0) e) as [e1| |] eqn:E1; simpl; try discriminate.
+  destruct (set_changed sd (Some 0) e) as [e1|] eqn:E1; simpl; try discriminate.
   intros H Hok. pose proof (nth_error_forall _ _ _ _ Hok En) as He.
   assert (H1 : ent_ok e1).
   { apply (set_changed_keeps _ _ _ _ E1); [apply ent_ok_sides; exact He|]. simpl. discriminate. }
   destruct (truthy (chR e1) || truthy (chL e1)).
   - inversion H; subst. simpl. apply upd_forall; assumption.
-  - destruct (reset_related c rel (upd i (with_in false e1) (ents s))) as [l2| |] eqn:E2; simpl in H; try discriminate.
+  - destruct (reset_related c rel (upd i (with_in false e1) (ents s))) as [l2|] eqn:E2; simpl in H; try discriminate.
     inversion H; subst. simpl. eapply reset_related_keeps; [exact Hc|exact E2|].
     apply upd_forall; [exact Hok|]. apply with_in_ok. exact H1.
 Qed.
@@ -831,7 +831,7 @@ Lemma steps_keeps c ops s s' : cfg_ok c -> steps c ops s = Ok s' -> all_ok s -> 
 Proof.
   intros Hc. revert s. induction ops as [|o r IH]; simpl; intros s H Hok.
   - inversion H; subst. exact Hok.
-  - destruct (step c o s) as [[s1 p]| |] eqn:E; simpl in H; try discriminate.
+  - destruct (step c o s) as [[s1 p]|] eqn:E; simpl in H; try discriminate.
     apply (IH s1 H). eapply step_keeps; eassumption.
 Qed.
 
@@ -843,8 +843,8 @@ Theorem history_not_before_aged c l0 ops s now age order i : cfg_ok c ->
   change c now age order s = Ok (Some i) ->
   exists e, nth_error (ents s) i = Some e /\ inset e = true /\
     (pri e < 0 \/
-     exists sd, aged (earlier_than c now age) (ch sd e) /\
-                forall t, nt sd e = Some t -> t <= earlier_than c now age).
+     exists sd, aged (threshold c now age (last s)) (ch sd e) /\
+                forall t, nt sd e = Some t -> t <= threshold c now age (last s)).
 Proof.
   intros Hc Hs Hch.
   assert (Hok : all_ok s) by (eapply steps_keeps; [exact Hc|exact Hs|constructor]).
@@ -852,8 +852,8 @@ Proof.
   exists e. split; [exact En|]. split; [exact Hi|].
   pose proof (nth_error_forall _ _ _ _ Hok En) as He0. pose proof (proj2 (ent_ok_sides e) He0) as He.
   apply eligible_iff in Pe.
-  assert (Hside : forall sd, aged (earlier_than c now age) (ch sd e) ->
-            forall t, nt sd e = Some t -> t <= earlier_than c now age).
+  assert (Hside : forall sd, aged (threshold c now age (last s)) (ch sd e) ->
+            forall t, nt sd e = Some t -> t <= threshold c now age (last s)).
   { intros sd [q [Eq [Hq Hle]]] t Ht. specialize (He sd). unfold side_ok in He.
     assert (Tr : truthy (ch sd e) = true) by (apply truthy_some; exists q; auto).
     specialize (He Tr t Ht). rewrite Eq in He. simpl in He. lra. }
@@ -915,29 +915,118 @@ Proof.
   vm_compute in H1. apply H1. reflexivity.
 Qed.
 
-(* "with ageing zero every pending change is eligible" is false without the hypothesis stamp <= now:
-   mark_changed (clock not advancing) and punts write stamps that lie in the future. *)
-Lemma age_zero_every_pending_false :
-  ~ (forall c now (l : list (nat * ent)), c_rnd c (now - 0) == now ->
-       (forall x, In x l -> exists s, truthy (ch s (snd x)) = true) ->
-       forall x, In x l -> eligible (earlier_than c now 0) (snd x) = true).
+(* ------------------------------------------------------------------ the threshold (/repo 5c0d808 + ed9e461) *)
+(* a positive ageing interval is measured on the clock itself *)
+Lemma threshold_pos c now age lst : 0 < age -> threshold c now age lst = earlier_than c now age.
 Proof.
-  intros H.
-  pose proof (H (cfg_exact 0 0) 5 [(0%nat, mk 0 (Some (5 + (1 # 1000))) None)]) as H1.
-  assert (Hr : c_rnd (cfg_exact 0 0) (5 - 0) == 5) by (simpl; lra).
-  assert (Hx : forall x, In x [(0%nat, mk 0 (Some (5 + (1 # 1000))) None)] -> exists s, truthy (ch s (snd x)) = true).
-  { intros x [<-|[]]. exists SL. reflexivity. }
-  specialize (H1 Hr Hx _ (or_introl eq_refl)). vm_compute in H1. discriminate.
+  intros H. unfold threshold, threshold_adj. destruct (Qle_bool age 0) eqn:E; [|reflexivity].
+  apply qleb_true in E. lra.
+Qed.
+(* ageing <= 0: never below the last change stamp *)
+Lemma threshold_nonpos c now age lst : age <= 0 ->
+  lst <= threshold c now age lst /\ earlier_than c now age <= threshold c now age lst.
+Proof.
+  intros H. unfold threshold, threshold_adj. apply qleb_true in H. rewrite H.
+  split; [apply qmax_ge_r|apply qmax_ge_l].
 Qed.
 
-(* the history that produces such a stamp: two notifications at the same clock reading 5, ageing 0;
-   the first entry is picked and finished, the second one is pending with stamp 5.001 and NOT picked at 5 *)
+Theorem history_not_before_aged_clock c l0 ops s now age order i : cfg_ok c -> 0 < age ->
+  steps c ops {| ents := []; last := l0 |} = Ok s ->
+  change c now age order s = Ok (Some i) ->
+  exists e, nth_error (ents s) i = Some e /\ inset e = true /\
+    (pri e < 0 \/
+     exists sd, aged (earlier_than c now age) (ch sd e) /\
+                forall t, nt sd e = Some t -> t <= earlier_than c now age).
+Proof.
+  intros Hc Ha Hs Hch. pose proof (history_not_before_aged c l0 ops s now age order i Hc Hs Hch) as H.
+  rewrite (threshold_pos c now age (last s) Ha) in H. exact H.
+Qed.
+
+(* ------------------------------------------------------------------ ageing zero *)
+(* with ageing <= 0 an entry is eligible as soon as one truthy stamp is <= the last change stamp (or <= now - age) *)
+Theorem age_zero_eligible c now age s e : age <= 0 ->
+  (exists sd q, ch sd e = Some q /\ ~ q == 0 /\ (q <= last s \/ q <= earlier_than c now age)) ->
+  eligible (threshold c now age (last s)) e = true.
+Proof.
+  intros Hage [sd [q [Eq [Hq Hle]]]]. apply eligible_iff.
+  destruct (threshold_nonpos c now age (last s) Hage) as [T1 T2].
+  assert (Ha : aged (threshold c now age (last s)) (ch sd e)).
+  { exists q. split; [exact Eq|]. split; [exact Hq|]. destruct Hle; lra. }
+  destruct sd; simpl in Ha; auto.
+Qed.
+
+(* ... so change(age <= 0) returns something whenever such an entry is pending *)
+Theorem age_zero_change_some c now age order s j e : age <= 0 ->
+  order_ok order s = true -> nth_error (ents s) j = Some e -> inset e = true ->
+  (exists sd q, ch sd e = Some q /\ ~ q == 0 /\ (q <= last s \/ q <= earlier_than c now age)) ->
+  exists i, change c now age order s = Ok (Some i).
+Proof.
+  intros Hage Hok En Hi Hst.
+  destruct (change c now age order s) as [[i|]|] eqn:C.
+  - exists i. reflexivity.
+  - exfalso. pose proof (change_none _ _ _ _ _ C j e En Hi) as Hn.
+    rewrite (age_zero_eligible c now age s e Hage Hst) in Hn. discriminate.
+  - unfold change in C. rewrite Hok in C. discriminate.
+Qed.
+
+(* a stamp written by mark_changed never exceeds _last_changed_time afterwards: as long as it has not been
+   punted or overwritten, the entry is eligible at ageing <= 0 whatever the clock reads (same tick, clock
+   gone backwards) *)
+Theorem age_zero_marked_eligible c sd t i s0 s1 ops s2 now age e2 : bump_ok c -> age <= 0 ->
+  mark_changed c sd t i s0 = Ok s1 -> steps c ops s1 = Ok s2 ->
+  nth_error (ents s2) i = Some e2 -> ch sd e2 = Some (last s1) -> ~ last s1 == 0 ->
+  eligible (threshold c now age (last s2)) e2 = true.
+Proof.
+  intros Hb Hage Hm Hs En Ec Hnz. apply age_zero_eligible; [exact Hage|].
+  exists sd, (last s1). split; [exact Ec|]. split; [exact Hnz|].
+  apply steps_last in Hs; [|exact Hb]. left. exact Hs.
+Qed.
+
+(* the same-tick history: refuted for the pre-5c0d808 variant (threshold = now - age), positive for the code now *)
+Definition change_v0 (c : cfg) (now age : Q) (order : list nat) (s : st) : res (option nat) :=
+  if order_ok order s then Ok (option_map fst (pick_sorted (earlier_than c now age) (tagged order s))) else Bad.
 Definition same_tick_history : list op :=
   [ONew; OSetOid 0 SL; OMark 0 SL 5; ONew; OSetOid 1 SL; OMark 1 SL 5; OFinished 0 SL [false; false]].
-Lemma same_tick_not_eligible :
+Lemma same_tick_v0_and_now :
   exists s, steps (cfg_exact (1 # 4) (1 # 4)) same_tick_history {| ents := []; last := 1 |} = Ok s /\
-    member s 1 = true /\ change (cfg_exact (1 # 4) (1 # 4)) 5 0 [1%nat] s = Ok None.
-Proof. eexists. split; [vm_compute; reflexivity|]. split; vm_compute; reflexivity. Qed.
+    member s 1 = true /\
+    change_v0 (cfg_exact (1 # 4) (1 # 4)) 5 0 [1%nat] s = Ok None /\
+    change (cfg_exact (1 # 4) (1 # 4)) 5 0 [1%nat] s = Ok (Some 1%nat).
+Proof. eexists. split; [vm_compute; reflexivity|]. split; [|split]; vm_compute; reflexivity. Qed.
+
+(* what remains false, by design: a punted entry's stamps are shifted ahead of clock and last change stamp *)
+Definition punted_history : list op := [ONew; OSetOid 0 SL; OMark 0 SL 5; OPunt 0].
+Lemma age_zero_every_pending_false :
+  ~ (forall c l0 ops s now order, cfg_ok c -> exact c ->
+       steps c ops {| ents := []; last := l0 |} = Ok s -> order_ok order s = true ->
+       forall j e, nth_error (ents s) j = Some e -> inset e = true ->
+         (exists sd, truthy (ch sd e) = true) ->
+         eligible (threshold c now 0 (last s)) e = true).
+Proof.
+  intros H.
+  assert (Hc : cfg_ok (cfg_exact (1 # 4) (1 # 4))) by (apply cfg_ok_exact; discriminate).
+  remember (steps (cfg_exact (1 # 4) (1 # 4)) punted_history {| ents := []; last := 1 |}) as r eqn:Hr.
+  vm_compute in Hr.
+  match type of Hr with r = Ok ?s =>
+    pose proof (H (cfg_exact (1 # 4) (1 # 4)) 1 punted_history s 5 [0%nat] Hc (exact_cfg_exact _ _)) as H1
+  end.
+  assert (Hs : steps (cfg_exact (1 # 4) (1 # 4)) punted_history {| ents := []; last := 1 |} = r) by (subst r; reflexivity).
+  rewrite Hr in Hs. specialize (H1 Hs eq_refl 0%nat _ eq_refl eq_refl (ex_intro _ SL eq_refl)).
+  vm_compute in H1. discriminate.
+Qed.
+
+(* two notifications in one tick push the last change stamp to 5.001; entry 0 (notified at clock 5) is NOT picked at
+   clock 5 with ageing 1/1000 (the interval is measured on the clock), and IS picked with ageing 0 *)
+Definition ahead_history : list op := [ONew; OSetOid 0 SL; OMark 0 SL 5; ONew; OSetOid 1 SL; OMark 1 SL 5].
+Lemma ahead_of_clock_example :
+  exists s, steps (cfg_exact (1 # 4) (1 # 4)) ahead_history {| ents := []; last := 1 |} = Ok s /\
+    last s = 5 + (1 # 1000) /\
+    change (cfg_exact (1 # 4) (1 # 4)) 5 (1 # 1000) [0%nat; 1%nat] s = Ok None /\
+    change (cfg_exact (1 # 4) (1 # 4)) 5 0 [0%nat; 1%nat] s = Ok (Some 0%nat).
+Proof.
+  eexists. split; [vm_compute; reflexivity|]. split; [vm_compute; reflexivity|].
+  split; vm_compute; reflexivity.
+Qed.
 
 (* IEEE doubles: last + 0.001 == last once last >= 2^44, so "whatever the clock returns" fails for the float
    instance of the rounding (clock reading 2^53 s) *)
